@@ -366,7 +366,7 @@ def richardson_retry(repo, run):
     oke = len(diff_st) == 1 and len(rets) == 1 and isinstance(rets[0].value, ast.Tuple) and len(rets[0].value.elts) == 3
     if oke:
         third = rets[0].value.elts[2]
-        c = Canon()
+        c = Canon(env=inline_locals(ar))       # `error_estimate = <difference>` named just before the return is the same expression
         oke = c.poly(third) in (c.poly(ast.parse("self.stage_values[m - 1, m - 1] - self.stage_values[m, m]", mode="eval").body),
                                 c.poly(ast.parse("self.stage_values[m, m] - self.stage_values[m - 1, m - 1]", mode="eval").body))
     run.judged(rid, "error estimate = difference of the last two diagonal tableau entries", ok=oke)
@@ -634,35 +634,39 @@ def tolerance_scale_is_current(repo, run, rule_id="C05.10"):
     """'error bounded by a modest constant times (atol + rtol*|y|)': the quantity that multiplies rtol in the controller has to follow the CURRENT state.  A scale
     that carries a memory of earlier steps (a running average stored in solver_dict and read back) lags behind a decaying solution by a factor 0.8^-n: with
     atol << rtol*|y| the accepted error exceeds the tolerance by orders of magnitude, for every integrator whose solver_dict survives from step to step."""
-    rid = run.rule(rule_id, "update_timestep: the scale multiplying rtol (`atol + rtol * scale`) is computed from the current step's data only -- no store of it reads its own "
-                            "previous value (or any other entry of solver_dict written by an earlier call of update_timestep)", floor=1)
+    from ..extract import _subst
+    rid = run.rule(rule_id, "update_timestep: the error tolerance (`atol + rtol * scale`) is computed from the current step's data only -- every solver_dict entry it reads that "
+                            "update_timestep itself writes is written earlier in the same call from values that read none of those entries (no running average over past steps)", floor=1)
     TPL_ = "desolver/integrators/integrator_template.py"
     fn = repo.get(TPL_, "IntegratorTemplate.update_timestep")
     env = inline_locals(fn)
     tol = env.get("total_error_tolerance")
-    keys = set()
-    if tol is not None:
-        for x in ast.walk(tol):
-            if isinstance(x, ast.Subscript) and is_self_attr(x.value, "solver_dict") and isinstance(x.slice, ast.Constant):
-                keys.add(x.slice.value)
-    if not keys:
-        raise AnalysisError("update_timestep: the scale entering the error tolerance (atol + rtol * solver_dict[...]) was not found")
-    # entries written by update_timestep itself: reading one of them back is reading a value of an EARLIER call
-    written = {t.slice.value for st in walk_no_nested(fn) if isinstance(st, ast.Assign) for t in ast.walk(st.targets[0])
-               if isinstance(t, ast.Subscript) and is_self_attr(t.value, "solver_dict") and isinstance(t.slice, ast.Constant)}
-    n = 0
+    if tol is None:
+        raise AnalysisError("update_timestep: the error tolerance (total_error_tolerance) was not found")
+
+    def keys_read(e):
+        e = _subst(e, {k: v for k, v in env.items() if k != "total_error_tolerance"})
+        return {x.slice.value for x in ast.walk(e) if isinstance(x, ast.Subscript) and is_self_attr(x.value, "solver_dict") and isinstance(x.slice, ast.Constant) and
+                isinstance(x.ctx, ast.Load)}
+    stores = {}
     for st in walk_no_nested(fn):
-        if not isinstance(st, ast.Assign):
-            continue
-        for t in st.targets:
-            if isinstance(t, ast.Subscript) and is_self_attr(t.value, "solver_dict") and isinstance(t.slice, ast.Constant) and t.slice.value in keys:
-                n += 1
-                back = sorted({x.slice.value for x in ast.walk(st.value) if isinstance(x, ast.Subscript) and is_self_attr(x.value, "solver_dict") and
-                               isinstance(x.slice, ast.Constant) and x.slice.value in written})
-                run.judged(rid, "`%s`%s" % (src(st)[:100], " reads back %s" % back if back else ""), ok=not back)
-                if back:
-                    run.report(rule_id, TPL_, st, "the scale of the relative tolerance is stored as a function of its own earlier value (%s): it is a running average over past steps, "
-                               "which lags behind a solution that shrinks along the run; for every integrator whose solver_dict persists between steps the controller then works "
-                               "with atol + rtol*(stale, too large scale) and accepts errors far above atol + rtol*|y|" % ", ".join("solver_dict[%r]" % b for b in back))
-    if n == 0:
-        raise AnalysisError("update_timestep: no store of the tolerance scale found")
+        if isinstance(st, ast.Assign):
+            for t in st.targets:
+                for x in ([t] if not isinstance(t, (ast.Tuple, ast.List)) else t.elts):
+                    if isinstance(x, ast.Subscript) and is_self_attr(x.value, "solver_dict") and isinstance(x.slice, ast.Constant):
+                        stores.setdefault(x.slice.value, []).append(st)
+    written = set(stores)
+    hist = keys_read(tol) & written
+    if not hist:
+        run.judged(rid, "the tolerance reads no solver_dict entry that update_timestep writes: %s" % sorted(keys_read(tol)))
+        return
+    for k in sorted(hist):
+        for st in stores[k]:
+            if st.lineno > [d for d in walk_no_nested(fn) if isinstance(d, ast.Assign) and any(isinstance(t, ast.Name) and t.id == "total_error_tolerance" for t in d.targets)][0].lineno:
+                continue
+            back = sorted(keys_read(st.value) & written) if isinstance(st.targets[0], ast.Subscript) else sorted(written & {k})
+            run.judged(rid, "`%s`%s" % (src(st)[:100], " reads back %s" % back if back else ""), ok=not back)
+            if back:
+                run.report(rule_id, TPL_, st, "the scale of the relative tolerance is stored as a function of its own earlier value (%s): it is a running average over past steps, "
+                           "which lags behind a solution that shrinks along the run; for every integrator whose solver_dict persists between steps the controller then works "
+                           "with atol + rtol*(stale, too large scale) and accepts errors far above atol + rtol*|y|" % ", ".join("solver_dict[%r]" % b for b in back))
